@@ -28,7 +28,8 @@ def coding_cases(draw, tier, fast=None, vt=None, message=None, force_table=False
         vt_length = draw(st.one_of(st.integers(1, 4), st.integers(1, 12)))
     else:
         vt_length = vt
-    options = draw(st.sampled_from(["plain", "plain", "plain", "plain", "verbose", "path", "layout", "all", "dtype"]))
+    options = draw(st.sampled_from(["plain", "plain", "plain", "plain", "verbose", "path", "layout", "all", "dtype",
+                                    "after_failure"]))
     case = {"graph": graph, "bits": bits, "table": table, "fast": is_fast, "vt": vt_length}
     if options in ("verbose", "all"):
         case["verbose"] = True
@@ -36,6 +37,8 @@ def coding_cases(draw, tier, fast=None, vt=None, message=None, force_table=False
         case["need_path"] = True
     if options in ("layout", "all"):
         case["layout"] = draw(st.sampled_from(["F", "strided", "offset"]))
+    if options == "after_failure":
+        case["after_failure"] = True
     if options == "dtype":
         case["layout"] = draw(st.sampled_from(["int32", "int16"]))
         case["msg_dtype"] = draw(st.sampled_from(["int8", "uint8", "int32", "list"]))
@@ -58,6 +61,15 @@ def run_encode(case, accessor=None, budget=None, **extra):
     table = gens.table_of(case["table"])
     if table is not None and case.get("layout"):
         table = gens.relayout(table, case["layout"])
+    if case.get("after_failure"):
+        # a call that may fail part-way (fast mode stops at an out-degree-3 vertex) precedes the real one
+        counter.budget += 4096
+        try:
+            lib_call(dsw.encode, _twice=False, binary_message=gens.bits_of("1011011101" + case["bits"][:40]),
+                     accessor=acc, start_index=graph["start"], is_faster=not case["fast"], shuffles=table)
+        except LookupBudgetExceeded:
+            pass
+        counter.count = 0
     try:
         result = lib_call(dsw.encode, binary_message=gens.bits_of(case["bits"], case.get("msg_dtype")), accessor=acc,
                           start_index=graph["start"], is_faster=case["fast"], vt_length=case["vt"],
@@ -113,7 +125,7 @@ def walk_classes(case, strand):
         labels.append("table_at_deg2or3")
     if case["vt"]:
         labels.append("vt")
-    for option in ("verbose", "need_path", "layout", "msg_dtype"):
+    for option in ("verbose", "need_path", "layout", "msg_dtype", "after_failure"):
         if case.get(option):
             labels.append("opt:" + option)
     if not strand:
